@@ -94,10 +94,15 @@ pub fn roundtrip_after(dangling_first: Option<usize>, start: usize, entries: &[V
     let result = guarded(|| -> Result<usize, String> {
         let mut initial = VecWriter::default();
         if let Some(len) = dangling_first {
-            let payload = crate::util::fill(0xDA, len, 0);
-            initial.bytes.extend_from_slice(&crate::damage::craft_frame(2, &payload));
+            // written by the library's own writer (so that the frame is valid whatever the frame format is): an entry
+            // longer than one block, of which only the first block — its First frame — is kept
+            let mut torn = verif_api::record_writer(VecWriter::default());
+            let long_entry = crate::util::fill(0xDA ^ len as u64, BLOCK + 100 + len, 0);
+            torn.write_record(Raw(&long_entry)).map_err(|err| format!("write torn entry: {err}"))?;
+            initial.bytes.extend_from_slice(&verif_api::underlying(&torn).bytes[..BLOCK]);
         }
-        let dangling_len = initial.bytes.len();
+        // the dangling frame fills block 0 entirely: in-block offsets are unchanged
+        let dangling_len = 0usize;
         let mut writer = verif_api::record_writer(initial);
         let mut expected: Vec<&[u8]> = Vec::new();
         let filler: Vec<u8>;
@@ -308,9 +313,9 @@ impl Property for C07 {
                     }
                     env.class("grid-cell");
                     env.nontrivial(hash64(&(*start, *length, follower)));
-                    // same cell right after a torn entry (a dangling First frame of 0 / 9 / 300 bytes)
-                    if follower == 2 && *start >= 400 {
-                        for dangling in [0usize, 9, 300] {
+                    // same cell right after a torn entry (the log begins with a block holding only a First frame)
+                    if follower == 2 {
+                        for dangling in [0usize] {
                             env.evals(1);
                             if let Err(msg) = roundtrip_after(Some(dangling), *start, &entries) {
                                 if msg.starts_with("engine:") {
@@ -318,7 +323,7 @@ impl Property for C07 {
                                 }
                                 let lens: Vec<usize> = entries.iter().map(|entry| entry.len()).collect();
                                 return Err(CaseError::Violation(Box::new(Failure {
-                                    msg: format!("in-memory round-trip after a dangling First frame of {dangling} bytes, cursor at in-block offset {start}, entry lengths {lens:?}: {msg}"),
+                                    msg: format!("in-memory round-trip after a torn entry (First frame only, variant {dangling}), cursor at in-block offset {start}, entry lengths {lens:?}: {msg}"),
                                     signature: "roundtrip-mismatch-after-dangling-frame".to_string(),
                                     policy: Policy::DEFAULT,
                                     ops: Vec::new(),
